@@ -298,6 +298,23 @@ def property_checks(inp):
         u1 = ps.ft_phase_screen(0.2, 8, 0.1, 30., 0.01); u2 = ps.ft_phase_screen(0.2, 8, 0.1, 30., 0.01)
         v1 = ps.ft_sh_phase_screen(0.2, 8, 0.1, 30., 0.01); v2 = ps.ft_sh_phase_screen(0.2, 8, 0.1, 30., 0.01)
     A(("unseeded calls differ from each other", 0.0 if (not numpy.array_equal(u1, u2) and not numpy.array_equal(v1, v2)) else 1.0, 0.0))
+    # unseeded calls take their entropy from the OS: they neither advance NumPy's global generator nor follow it
+    def unseeded_all():
+        o = [ps.ft_phase_screen(0.2, 8, 0.1, 30., 0.01), ps.ft_sh_phase_screen(0.2, 8, 0.1, 30., 0.01)]
+        for cls, kw in ((ips.PhaseScreenVonKarman, {}), (ips.PhaseScreenKolmogorov, {"stencil_length_factor": 2})):
+            s_ = cls(8, 0.1, 0.2, 20., **kw); o.append(numpy.array(s_.scrn, copy=True)); s_.add_row(); o.append(numpy.array(s_.scrn, copy=True))
+        return o
+    with warnings.catch_warnings():
+        warnings.simplefilter("ignore")
+        numpy.random.seed(inp["foreign_seed"] % 1000); random.seed(3)
+        st0 = pickle.dumps(numpy.random.get_state()); sp0 = random.getstate()
+        w1 = unseeded_all()
+        moved = pickle.dumps(numpy.random.get_state()) != st0 or random.getstate() != sp0
+        numpy.random.seed(inp["foreign_seed"] % 1000); random.seed(3)
+        w2 = unseeded_all()
+    A(("unseeded calls leave NumPy's and Python's global generators where they were", 1.0 if moved else 0.0, 0.0))
+    A(("unseeded calls differ even when the global generator is re-seeded identically before them",
+       float(sum(1 for x, y in zip(w1, w2) if numpy.array_equal(x, y))), 0.0))
     return out
 
 
